@@ -8,7 +8,7 @@
    sub-frame after every accepted frame, on objects whose mandatory parameters are well typed).  NOT yet proved: the
    label-like lists, the shape of frames other than frame 0, and the parameter half for the column and declare calls:
    decided by the check. *)
-From EZ Require Import Base Types Api Proofs_Param Proofs_Guards Spec_Inv Proofs_Inv Proofs_Header Spec_Typed Proofs_Updaters Float32 Run.
+From EZ Require Import Base Types Api Proofs_Param Proofs_Guards Spec_Inv Proofs_Inv Proofs_Header Spec_Typed Proofs_Updaters Proofs_ApiSafe Float32 Run.
 Local Open Scope N_scope.
 
 Definition conforming (s : state) (o : op) : Prop :=
@@ -111,6 +111,15 @@ Theorem C05_parameters_follow_data_after_frame : forall f_key f_tosize f_div f_i
   MT (groups s') /\ counts_follow s'.
 Proof. exact api_frame_counts. Qed.
 Print Assumptions C05_parameters_follow_data_after_frame.
+
+(* what must NOT change: a frame of the shape the parameters already announce changes no parameter except POINT:FRAMES —
+   the label, description, unit, scale and offset lists, the rates and every other group are exactly as before *)
+Theorem C05_frame_leaves_the_other_parameters : forall f_key f_tosize f_div f_is_zero f idx s s',
+  api_frame f_key f_tosize f_div f_is_zero f idx s = ROk tt s' ->
+  (forall fs', put empty_frame (frames s) f idx = Ok fs' -> counts_agree (set_frames s fs')) ->
+  forall g n, (g <> nm_POINT \/ n <> nm_FRAMES) -> lookup (groups s') g n = lookup (groups s) g n.
+Proof. exact api_frame_keeps_parameters. Qed.
+Print Assumptions C05_frame_leaves_the_other_parameters.
 
 (* witnesses of the three known findings, on the executable instance *)
 Example C05_frames_without_shape_refuted :
